@@ -162,3 +162,45 @@ func VerifC14Layout() {
 	verifrt.Observe("text", text)
 	verifrt.Reach("end")
 }
+
+// VerifC14Decoration: what a block style adds in front of each line (bar,
+// bullet, marker, indentation) looks the same on the first and on every
+// continuation line - no attribute applies to one line's decoration only.
+func VerifC14Decoration() {
+	ops := []int{10, 11, 12, 13} // QuoteBlock, LinkBlock, Header, Bullet
+	op := vOps[ops[verifrt.Choice("op", len(ops))]]
+	nLines := 2 + verifrt.Choice("lines", 2)
+	text := ""
+	for i := 0; i < nLines; i++ {
+		if i > 0 {
+			text += "\n"
+		}
+		text += vLeafCharNoNL("ch")
+	}
+	sc := verifrt.Parse(op.apply(text))
+	verifrt.Assert(sc.OK && sc.NeutralAtBreaks(), "block-well-formed-and-neutral")
+	verifrt.Assert(len(sc.Lines) == nLines, "block-keeps-its-lines")
+	// decoration = the cells before the leaf character of each line
+	ref := ""
+	for li, l := range sc.Lines {
+		for _, c := range l {
+			if !isDecoration(c.R) {
+				break
+			}
+			if c.R == ' ' && len(l) > 0 && l[0].R != ' ' && li == 0 {
+				// the separator after a first-line marker belongs to the decoration too
+			}
+			if li == 0 && ref == "" {
+				ref = "set:" + sortedAttrs(c.Attrs)
+			}
+			verifrt.Assert("set:"+sortedAttrs(c.Attrs) == ref, "decoration-styled-alike-on-every-line")
+		}
+	}
+	verifrt.Reach("end")
+}
+
+func vLeafCharNoNL(name string) string {
+	b := verifrt.Byte(name)
+	verifrt.Assume(verifrt.All(b < 0x7f, b > 0x20))
+	return string(rune(b))
+}
